@@ -49,6 +49,11 @@ def build_label(rng):
                      "line one" + nl + "  line two",
                      "a" + nl + nl + "b" + nl + "c"])
     segs = []
+    if rng.random() < 0.15:
+        # dash-continued lines before everything else
+        for _ in range(rng.choice([1, 2])):
+            segs += [("name", "DASHED"), ("between", " = "),
+                     ("quoted", '"abc-' + nl + '     def"'), ("between", nl)]
     if rng.random() < 0.5:
         segs += [("comment", rng.choice(["/* head */", "/* two" + nl +
                                          "   lines */"])),
@@ -115,7 +120,8 @@ class C15(Property):
             "and 30 single-character corruptions (insert or replace at a "
             "seeded position of a seeded class; code point from a boundary "
             "set or uniformly random over 0..0x10FFFF), each loaded with the "
-            "strict PVL, ODL and PDS3 parsers when the code point is outside "
+            "strict PVL, ODL and PDS3 dialects - selected through an explicit "
+            "parser, or through pvl.loads(grammar=), (decoder=) or both - when the code point is outside "
             "that dialect's specification table, and with the default "
             "loader when it sits inside a quoted string.  Thorough tier: run "
             "i additionally injects the 16 code points 16i..16i+15, so every "
@@ -143,7 +149,9 @@ class C15(Property):
                        "probe.class:quoted-in-block", "probe.class:END",
                        "probe.class:afterEND", "probe.default-transparent",
                        "probe.table-compared",
-                       "probe.fault-on-later-line-of-multiline-token"]
+                       "probe.fault-on-later-line-of-multiline-token",
+                       "probe.route:grammar", "probe.route:decoder",
+                       "probe.route:both"]
 
     # ---- one explicit case
     def execute_case(self, case, out=None):
@@ -193,11 +201,13 @@ class C15(Property):
                     if out is not None:
                         out.inc("skipped.no-obligation")
                     continue
-                o = dialects.load(config, text)
+                route = case.get("route", "parser")
+                o = dialects.load_route(config, text, route)
                 if out is not None:
                     out.evals += 1
-                    out.log.ev(config, c, p, mode, o.brief())
+                    out.log.ev(config, route, c, p, mode, o.brief())
                     out.inc("fault.char-%s" % mode)
+                    out.inc("probe.route:" + route)
                 if o.kind != "LexerError":
                     viol("not-rejected" if o.kind == "ok" else
                          "wrong-exit", "load ended in %s%s" % (
@@ -205,26 +215,35 @@ class C15(Property):
                              if o.kind == "ok" else ""), config)
                     continue
                 e = o.exc
-                ok_doc = getattr(e, "doc", None) == text
+                # the permissive parser class (used when the dialect is
+                # chosen through grammar= / decoder=) parses the text with
+                # dash continuations removed; the error's attributes must
+                # be consistent with the document it carries
+                import re
+                doc = getattr(e, "doc", None)
+                nodash = re.sub("-[\n\r\f][ \t\n\r\v\f]*", "", text)
+                ok_doc = doc == text or (route != "parser" and doc == nodash)
                 pos = getattr(e, "pos", None)
                 if not ok_doc:
                     viol("error-doc", "e.doc is not the text", config)
-                elif not (isinstance(pos, int) and 0 <= pos <= len(text)):
+                elif not (isinstance(pos, int) and 0 <= pos <= len(doc)):
                     viol("error-pos", "e.pos=%r outside 0..%d" %
-                         (pos, len(text)), config)
+                         (pos, len(doc)), config)
                 else:
-                    ln = text.count("\n", 0, pos) + 1
-                    col = pos - text.rfind("\n", 0, pos)
+                    ln = doc.count("\n", 0, pos) + 1
+                    col = pos - doc.rfind("\n", 0, pos)
                     if e.lineno != ln or e.colno != col:
                         viol("error-line-col", "pos=%d lineno=%r colno=%r, "
                              "documented definitions give %d/%d" %
                              (pos, e.lineno, e.colno, ln, col), config)
-                    elif not (tok_start <= pos <= p + 1):
+                    elif doc == text and not (tok_start <= pos <= p + 1):
                         viol("error-locality", "e.pos=%d not within [%d, "
                              "%d]" % (pos, tok_start, p + 1), config)
             else:   # default grammar: transparency inside quoted strings
                 if not cls.startswith("quoted") or ch in "\"'- \t\n\r\f\v":
                     continue
+                if "-" in text0[a:b]:
+                    continue    # a dash-continued string is C08/C02 ground
                 if not (a < p < b) and not (mode == "insert" and a < p < b):
                     continue
                 if mode == "replace" and not (a < p < b - 1):
@@ -321,7 +340,9 @@ class C15(Property):
                     out.inc("probe.fault-on-later-line-of-multiline-token")
             case = {"segs": [list(s) for s in sg], "p": p, "c": c,
                     "mode": mode,
-                    "configs": ["PVL", "ODL", "PDS3", "default"]}
+                    "configs": ["PVL", "ODL", "PDS3", "default"],
+                    "route": rng.choice(["parser", "parser", "grammar",
+                                         "decoder", "both"])}
             vs, nt = self.execute_case(case, out)
             out.violations.extend(vs)
             if nt:
